@@ -266,6 +266,10 @@ class World:
             raise self.shared_exc
         if out[0] in ("raise", "raise_tf", "raise_odd"):
             self.fired.append(out[2])
+            if out[0] == "raise" and isinstance(obj, VObj):
+                # a property of an attribute-style parent fails with an ordinary built-in exception: the classes the default
+                # resolver itself catches around its *item* lookup (KeyError, TypeError) are still failures of the attribute read
+                raise [InjectedError, KeyError, TypeError, IndexError, ValueError][len(out[2]) % 5]("boom at %s" % out[2])
             raise make_exception(out[0], out[2])
         if out[2] in self.faults:
             self.fired.append(out[2])
